@@ -25,10 +25,71 @@ def _chain(*preds):
     return f
 
 
+# The four recorded defects are matched by input predicate AND by a model of the defect: the named detail is
+# only given when the observation is exactly what the model predicts; any other divergence on such inputs is
+# classified by the generic predicates and is never a known finding.
+
+def _data(i):
+    full = i.env.full
+    return full[list(i.spec.cols)] if len(i.spec.cols) > 1 else full[i.spec.cols[0]]
+
+
+def p_cum_nan_carry(i):
+    """cum*: model = the carried row is the last *cumulative* row of the previous batch, NaN included"""
+    if not F.p_nan_at_batch_end(i) or i.fail.got is None:
+        return False
+    import pandas as pd
+    op = i.spec.key.split("[")[0]
+    data, state, outs = _data(i), None, []
+    for lo, hi in i.bounds:
+        if hi == lo:
+            continue
+        new = data.iloc[lo:hi]
+        res = getattr(pd.concat([state, new]) if state is not None else new, op)()
+        outs.append(res.iloc[1:] if state is not None else res)
+        state = res.iloc[-1:]
+    return F.diff(i.fail.got, pd.concat(outs)) is None
+
+
+def _nan_cols_model(i, hit, value):
+    """one-pass value at the prefix's last row, with `value` substituted in the columns selected by hit(col values)"""
+    data = _data(i)
+    want = i.spec.oracle(i.env.full).iloc[i.hi - 1]
+    pre = data.iloc[:i.hi]
+    if len(i.spec.cols) == 1:
+        return value if hit(pre) else want
+    want = want.copy()
+    for c in i.spec.cols:
+        if hit(pre[c]):
+            want[c] = value
+    return want
+
+
+def p_ewm_nan_poisons(i):
+    """ewm: model = NaN from the first NaN row on (pandas skips missing observations)"""
+    if i.clause != "value" or i.fail.got is None or not F.p_nan_in_prefix(i):
+        return False
+    model = _nan_cols_model(i, lambda col: bool(col.isna().any()), F.NAN)
+    return F.diff(i.fail.got, model, squeeze=True) is None
+
+
+def p_ewm_empty_first(i):
+    """ewm: model = empty output for every batch after an empty first batch"""
+    return F.p_empty_first_batch(i) and i.clause == "type" and str(i.fail.observed.get("got", "")).endswith("with 0 rows")
+
+
+def p_expsum_zero_for_all_nan(i):
+    """expanding().sum(): model = 0.0 instead of NaN while a column has only seen NaN"""
+    if i.clause != "value" or i.fail.got is None or not F.p_all_nan_prefix(i):
+        return False
+    model = _nan_cols_model(i, lambda col: bool(col.isna().all()), 0.0)
+    return F.diff(i.fail.got, model, squeeze=True) is None
+
+
 GEN = _chain(*F.GENERIC)
-CUM = _chain(("nan-at-batch-end", F.p_nan_at_batch_end), *F.GENERIC)
-EWM = _chain(("empty-first-batch", F.p_empty_first_batch), ("nan-in-prefix", F.p_nan_in_prefix), *F.GENERIC)
-EXPSUM = _chain(("all-nan-prefix", F.p_all_nan_prefix), *F.GENERIC)
+CUM = _chain(("nan-at-batch-end", p_cum_nan_carry), *F.GENERIC)
+EWM = _chain(("empty-first-batch", p_ewm_empty_first), ("nan-in-prefix", p_ewm_nan_poisons), *F.GENERIC)
+EXPSUM = _chain(("all-nan-prefix", p_expsum_zero_for_all_nan), *F.GENERIC)
 
 
 def add(key, site, mode, f, classify=GEN, cols=("x",)):
